@@ -15,6 +15,7 @@ fn main() {
         "diagnose" => diagnose(&sc),
         "line_index" => line_index(&sc),
         "config_load" => config_load(&sc),
+        "config_merge" => config_merge(&sc),
         "parse" => parse(&sc),
         "history" => history(&sc),
         _ => json!({"error": format!("unknown scenario kind {kind}")}),
@@ -194,6 +195,28 @@ fn config_load(sc: &Value) -> Value {
     }
     let _ = std::fs::remove_dir_all(&root);
     json!({"panicked": !panics.is_empty(), "panics": panics})
+}
+
+
+/// cases: [{id, docs: [json,...], pointer: "/diagnostics/enable"}]: the documents are loaded in order as partial
+/// configurations (load_configs_raw) `repeat` times; reports the value at the JSON pointer of the merged raw object
+fn config_merge(sc: &Value) -> Value {
+    use emmylua_code_analysis::load_configs_raw;
+    let mut outs = vec![];
+    for c in sc["cases"].as_array().cloned().unwrap_or_default() {
+        let docs: Vec<Value> = c["docs"].as_array().cloned().unwrap_or_default();
+        let ptr = c["pointer"].as_str().unwrap_or("").to_string();
+        let mut seen: Vec<Value> = vec![];
+        for _ in 0..sc["repeat"].as_u64().unwrap_or(8) {
+            let raw = load_configs_raw(vec![], Some(docs.clone()));
+            let v = raw.pointer(&ptr).cloned().unwrap_or(Value::Null);
+            if !seen.contains(&v) {
+                seen.push(v);
+            }
+        }
+        outs.push(json!({"id": c["id"], "values": seen}));
+    }
+    json!({"results": outs})
 }
 
 
